@@ -62,16 +62,20 @@ pub fn read_reply(l: &[SExp]) -> Option<Reply> {
         _ => return None,
     };
     let body = unhex(l.get(3)?.atom()?)?;
-    let mut r = Reply { status, framing, body, fragments: vec![], cut_at: None, stall: None };
+    let mut r = Reply { status, framing, body, fragments: vec![], cut_at: None, stall: None, drip: None };
+    let mut takes: Option<u64> = None;
     for e in &l[4..] {
         let x = e.list()?;
         match x.first()?.atom()? {
             "frags" => r.fragments = x[1..].iter().map(|a| a.atom().and_then(|s| s.parse().ok())).collect::<Option<Vec<usize>>>()?,
             "cut" => r.cut_at = x.get(1)?.atom()?.parse().ok(),
             "stall" => r.stall = Some(Duration::from_millis(x.get(1)?.atom()?.parse().ok()?)),
+            "drip" => r.drip = Some(Duration::from_millis(x.get(1)?.atom()?.parse().ok()?)),
+            "takes" => takes = x.get(1)?.atom()?.parse().ok(),
             _ => return None,
         }
     }
+    let _ = takes;
     Some(r)
 }
 
@@ -266,9 +270,14 @@ fn op_send(line: &str, args: &[SExp]) -> CaseResult {
     }
     if oracle.is_none() {
         let is_ok = matches!(outcome, SendOutcome::Ok(..));
-        let timed_out = match (reply.stall, cfg.timeout_ms) {
-            (Some(s), Some(t)) => s.as_millis() as u64 > t,
-            _ => false,
+        let total_ms = reply.stall.map(|s| s.as_millis() as u64).unwrap_or(0)
+            + reply.drip.map(|d| {
+                let frag = reply.fragments.first().cloned().unwrap_or(reply.body.len().max(1)).max(1);
+                d.as_millis() as u64 * ((reply.body.len() + frag - 1) / frag) as u64
+            }).unwrap_or(0);
+        let timed_out = match cfg.timeout_ms {
+            Some(t) => total_ms > 2 * t,
+            None => false,
         };
         if (reply.status >= 400 || reply.cut_at.is_some() || timed_out) && is_ok {
             oracle = Some(format!("a {} was returned as a success", if reply.status >= 400 { format!("HTTP status {}", reply.status) } else if timed_out { "timed-out exchange".to_string() } else { "response cut before the end of the attributes".to_string() }));
